@@ -340,7 +340,12 @@ class TokenizerState:
         endprog.join(self, end)
         self.pos = end
         epos = (self.lnum, end)
-        return TokenInfo(tok, endprog.text, endprog.start, epos, endprog.contline)
+        # the token's line: every physical line it touches (the one it ends on was not collected yet;
+        # a piece that follows a replacement field starts with none at all)
+        line = endprog.contline
+        if not line or self.lnum != endprog.start[0]:
+            line += self.line
+        return TokenInfo(tok, endprog.text, endprog.start, epos, line)
 
     def match(self, pattern: str | re.Pattern[str]) -> re.Match[str] | None:
         pattern = _compile(pattern) if isinstance(pattern, str) else pattern
